@@ -18,6 +18,11 @@ from autobahn.twisted import websocket
 from wormhole_mailbox_server import server_tap, server_websocket, database
 from wormhole_mailbox_server import server as server_mod
 
+try:
+    tlog.defaultObserver.stop()      # errors logged by the server are collected per step, not printed
+except Exception:
+    pass
+
 PKG = "wormhole_mailbox_server"
 CHANNEL_TABLES = ("nameplates", "nameplate_sides", "mailboxes", "mailbox_sides", "messages")
 USAGE_TABLES = ("nameplates", "mailboxes", "client_versions", "current")
